@@ -149,4 +149,6 @@ def run(ctx):
     import syncfam
     syncfam.model(ctx, thorough)
     syncfam.histories(ctx, 400 if thorough else 40, props={"C12", "C01", "C10", "C16"})
+    # the same with upgrades switched off on the slave: no login there ever reaches the master or changes a directory
+    syncfam.histories(ctx, 100 if thorough else 12, props={"C12", "C01", "C10", "C16"}, name="sync-off", slave_mode="off")
     ctx.assumptions += ["remote mode is exercised with an unreachable master only (the local store must stay untouched)"]
